@@ -117,6 +117,24 @@ def _static_region_width(run, r, loc):
     b = hi[0] if hi[1] == 0 else bw + hi[0]
     return b - a if 0 <= a <= b <= bw else None
 
+def static_edge(run, c, value):
+    """c == value compares len(X), X of statically known width, with an integer constant: -> True / False whether that edge can
+    be taken at all; None when c is not such a comparison."""
+    import operator
+    ops = {"Eq": operator.eq, "Ne": operator.ne, "Gt": operator.gt, "Lt": operator.lt, "Ge": operator.ge, "Le": operator.le}
+    if not (isinstance(c, tuple) and len(c) == 4 and c[0] == "binop" and c[1] in ops and value in (0, 1)):
+        return None
+    def val(t):
+        if isinstance(t, tuple) and t and t[0] == "int":
+            return t[1]
+        if isinstance(t, tuple) and len(t) == 2 and t[0] == "len":
+            return run.norm.width(t[1])
+        return None
+    a, b = val(c[2]), val(c[3])
+    if a is None or b is None:
+        return None
+    return (1 if ops[c[1]](a, b) else 0) == value
+
 def classify_generic(run, r):
     """callee-reported / statically-impossible / value-dependent"""
     n = run.norm.n(r.ret)
@@ -131,6 +149,8 @@ def classify_generic(run, r):
         lg = length_guard_class(run.norm.n(g["cond"]), g["value"]) if g else None
         if lg:
             return lg
+        if g and static_edge(run, run.norm.n(g["cond"]), g["value"]) is False:
+            return "statically-impossible", "length of a fixed-width value compared with a constant: " + gc[:120]
         return "value-dependent", "explicit Err under guard " + gc
     if isinstance(root, tuple) and root:
         if root[0] == "split":
@@ -167,6 +187,8 @@ def classify_generic(run, r):
             lg = length_guard_class(run.norm.n(g["cond"]), g["value"]) if g else None
             if lg:
                 return lg
+            if g and static_edge(run, run.norm.n(g["cond"]), g["value"]) is False:
+                return "statically-impossible", "length of a fixed-width value compared with a constant: " + gc[:120]
             return "value-dependent", "explicit Err under guard " + gc
         if root[0] == "tryarray":
             # slice -> [u8; n]: impossible to fail iff the slice's static width is n
